@@ -1,9 +1,11 @@
 (* C02 -- proofs.  The per-freedom lemmas are in Yanny/LayoutFacts.v (reusable by C03); this file restates
    the ones that mention the document-level predicates. *)
+From Coq Require Import String.
 From Coq Require Import NArith ZArith List Bool Lia.
 Import ListNotations.
 From PV Require Import Yanny.Bytes Yanny.BytesFacts Yanny.Types Yanny.Parse Yanny.Render
-  Yanny.TokenFacts Yanny.RowFacts Yanny.TypeFacts Yanny.DocFacts Yanny.LayoutFacts C02.Model.
+  Yanny.TokenFacts Yanny.RowFacts Yanny.TypeFacts Yanny.DocFacts Yanny.LayoutFacts Yanny.ScanFacts Yanny.FileFacts
+  Yanny.RoundTrip Yanny.LayoutFile Yanny.LayoutRow Yanny.LayoutFile2 Yanny.Interleave C02.Model.
 Open Scope N_scope.
 
 (* a data line of a well-formed table means the same under any letter case of the table name *)
@@ -21,3 +23,48 @@ Proof.
   - apply row_ok_fits; auto. now apply enums_ok_names.
 Qed.
 
+
+(* ---- non-vacuity: a concrete laid-out file satisfies every hypothesis of C02_layout_independence_partial ---- *)
+Definition ex_table : table := mktable (bs "T"%string) [mkcol (bs "x"%string) TInt None; mkcol (bs "s"%string) (TChar 4) None]
+                                       [[Sc (SInt 5); Sc (STok (bs "a b"%string))]].
+Definition ex_doc : doc := mkdoc [bs "c"%string] [(bs "k"%string, bs "v"%string)] [] [ex_table].
+Definition ex_tws : list (table * list bytes) := [(ex_table, [S_INT; S_CHAR])].
+Definition ex_trs : list (table * list cell) := all_trs (d_tables ex_doc).
+(* the data row written as:  <tab> t <2 blanks> "5" <blank> "a b" <blank> # note   (quoted int, lower-case name),
+   one comment line and one blank line inserted before it *)
+Definition ex_row : bytes :=
+  [TAB] ++ lrow_core (bs "t"%string) [([SP; SP], LSc (SInt 5) true); ([SP], LSc (STok (bs "a b"%string)) true)]
+  ++ [SP] ++ tail_text (Some (bs " note"%string)).
+Definition ex_items : list item :=
+  firstn 6 (items_gen ex_doc ex_tws ex_trs) ++ [ILine (bs " # inserted"%string); ILine [SP; TAB]; ILine ex_row].
+
+Lemma example_in_domain : doc_ok ex_doc = true /\ map fst ex_tws = d_tables ex_doc.
+Proof. split; vm_compute; reflexivity. Qed.
+
+Lemma example_tws_ok : tws_ok (d_enums ex_doc) ex_tws.
+Proof.
+  constructor; [|constructor]. cbn [fst snd ex_table t_cols].
+  constructor; [repeat split; try reflexivity; discriminate|].
+  constructor; [repeat split; try reflexivity; discriminate|constructor].
+Qed.
+
+Lemma example_layout : idec (sy_of (d_enums ex_doc) ex_tws) ex_items (items_gen ex_doc ex_tws ex_trs).
+Proof.
+  change (items_gen ex_doc ex_tws ex_trs) with
+    (firstn 6 (items_gen ex_doc ex_tws ex_trs) ++
+     [ILine (render_row_line (upper (bs "t"%string))
+        (map (fun gc : bytes * lcell => cell_of (snd gc))
+           [([SP; SP], LSc (SInt 5) true); ([SP], LSc (STok (bs "a b"%string)) true)]))]).
+  unfold ex_items. vm_compute firstn.
+  repeat apply id_same.
+  apply id_skip; [right; exists [SP], (bs " inserted"%string); repeat split; reflexivity|].
+  apply id_skip; [left; reflexivity|].
+  unfold ex_row.
+  eapply (id_row _ [TAB] (bs "t"%string) _ _ [SP] (Some (bs " note"%string))); try reflexivity; try discriminate.
+  - split; reflexivity.
+  - constructor.
+Qed.
+
+Lemma example_reads_as_the_document :
+  match sem ex_doc with Some p => parse (items_text ex_items) = Some p | None => False end.
+Proof. vm_compute. reflexivity. Qed.
